@@ -95,7 +95,11 @@ func TestC18(t *testing.T) {
 		}
 		pre := rapid.IntRange(0, 3).Draw(rt, "presrc")
 		for i := 0; i < pre; i++ {
-			sc.Steps = append(sc.Steps, Step{Op: "srcSet", I: rapid.IntRange(0, 3).Draw(rt, "slot"), J: rapid.IntRange(0, 6).Draw(rt, "val")})
+			st := Step{Op: "srcSet", I: rapid.IntRange(0, 3).Draw(rt, "slot"), J: rapid.IntRange(0, 6).Draw(rt, "val")}
+			if rapid.IntRange(0, 3).Draw(rt, "prelabel") == 0 {
+				st.S = "prelabel"
+			}
+			sc.Steps = append(sc.Steps, st)
 		}
 		spec0 := genOTSpec(rt, cluster)
 		// family: PKO on a HyperShift management cluster - the environment a template sees depends on the namespace it lives
@@ -141,8 +145,10 @@ func TestC18(t *testing.T) {
 				sc.Steps = append(sc.Steps, Step{Op: "reconcile", Ctrl: ctrl})
 			case k <= 8:
 				st := Step{Op: "srcSet", I: rapid.IntRange(0, 3).Draw(rt, "slot"), J: rapid.IntRange(0, 6).Draw(rt, "val")}
-				if rapid.IntRange(0, 4).Draw(rt, "del") == 0 {
+				if d := rapid.IntRange(0, 9).Draw(rt, "del"); d <= 1 {
 					st.S = "del"
+				} else if d == 2 {
+					st.S = "prelabel"
 				}
 				sc.Steps = append(sc.Steps, st)
 			case k == 9:
